@@ -16,6 +16,8 @@ LEVEL = 'model_checking'
 TECHNIQUE = 'explicit-state BFS over transformation programs (real functions as transition relation), step invariants on every transition'
 
 LABELS = ['S', 'NP', 'VP', 'PP', 'CO', 'PRN']
+# second labelling (edge pattern 1): the categories whose head rule has an empty priority list, both directions
+LABELS_B = ['S', 'CH', 'FRAG', 'ISU', 'UCP', 'QL', 'DL', 'INTJ']
 POS = ['NN', 'ART', 'VVFIN', 'APPR']
 PWORDS = [',', '"', '(']
 
@@ -188,6 +190,23 @@ def check_split_then_raise(pre, split_tree):
     return out
 
 
+def check_topnode_again(pre, top_tree):
+    """Two-step invariant: add_topnode adds one node on EVERY application, also on a tree whose root already is
+    a TOP node (the BFS itself applies it once per path)."""
+    r2 = transform.add_topnode(uncanon(canon(top_tree)))
+    probs = monitor(r2, len(pre['toks']))
+    if probs:
+        return [('ill-formed', 'add_topnode applied twice: ' + '; '.join(probs))]
+    post = summary(r2)
+    exp = pre['labels'] + collections.Counter(['TOP', 'TOP'])
+    out = []
+    if post['toks'] != pre['toks']:
+        out.append(('tokens-changed', 'add_topnode twice: token sequence %r became %r' % (pre['toks'], post['toks'])))
+    if post['labels'] != exp:
+        out.append(('label-multiset', 'add_topnode applied twice: constituent labels %r, expected %r' % (dict(post['labels']), dict(exp))))
+    return out
+
+
 def pre_summary(t):
     s = summary(t)
     se = collections.Counter()
@@ -207,10 +226,11 @@ def initial_trees(chunk):
     n = chunk['n']
     maxp = chunk['maxp']
     for sh, k in sweep.iter_shapes(chunk):
-        def lab(p, s):
-            return LABELS[(sum(p) + len(p)) % len(LABELS)]
-
         for pattern in (0, 1):
+            def lab(p, s, pattern=pattern):
+                L = LABELS if pattern == 0 else LABELS_B
+                return L[(sum(p) + len(p)) % len(L)]
+
             def edge(p, s):
                 # pattern 0: first child is HD; pattern 1: no HD on constituents, tokens alternate NK/HD (heads on the right)
                 return ('HD' if p[-1] == 0 else '--') if pattern == 0 else '--'
@@ -238,7 +258,8 @@ def probe_trees(chunk):
     sh = model.sort_shape((MID_PROBES if chunk['which'] == 'mid' else model.big_shapes())[chunk['i']])
     n = len(model.leaves(sh))
     for pattern in (0, 1):
-        root = model.decorate(sh, lambda p, s: LABELS[(sum(p) + len(p)) % len(LABELS)],
+        L = LABELS if pattern == 0 else LABELS_B
+        root = model.decorate(sh, lambda p, s, L=L: L[(sum(p) + len(p)) % len(L)],
                               (lambda p, s: 'HD' if p[-1] == 0 else '--') if pattern == 0 else (lambda p, s: '--'))
         tok_edges = ['NK' if i % 2 else '--' for i in range(n)] if pattern == 0 else ['HD' if i % 2 else 'NK' for i in range(n)]
         yield model.MT(1, model.mk_tokens(n, pos=[POS[i % len(POS)] for i in range(n)], edge=tok_edges,
@@ -315,6 +336,8 @@ def explore(inits, depth, res, skip_ops=()):
                 probs = check_step(pre, op, r)
                 if op == 'boyd_split' and not probs:
                     probs = check_split_then_raise(pre, r)
+                if op == 'add_topnode' and not probs:
+                    probs = check_topnode_again(pre, r)
             except Exception as e:
                 probs = [('exception', '%s: %s' % (type(e).__name__, e))]
                 r = None
